@@ -1288,13 +1288,18 @@ MANIFEST = {
                   'implies for every template (C11_repaired_crash_safe); the hypotheses are an invariant of histories of '
                   'completed / failed / killed operations (C11_repaired_history_safe).  An un-serializable object anywhere in a '
                   'template whose named nodes are all new is rejected with the disk unchanged (C11_unserializable_rejected).  '
-                  'Two different objects under one identifier anywhere in a template whose named nodes below the root '
-                  'are new are rejected (EClash) with the disk unchanged (C11_clash_rejected, round 6).  '
-                  'TESTED ONLY, not proved: the other identifier clashes (another object cached under the identifier of a '
-                  'child, identifier stored but not cached, a replacement that contains the stored object it replaces) and '
-                  'that they are rejected before the first backend call (it is the shape of the model; '
-                  'C11_error_before_write is definitional), un-serializable '
-                  'objects next to cached children, the CachingBackend wrapper, and clause '
+                  'Round 6, identifier clashes and un-serializable objects as statements about templates: every REACHABLE '
+                  'reason for a rejection (on a path of new children from the root: an un-serializable object, a child '
+                  'whose identifier is in the storage while the cache does not hold this very object under it, a child '
+                  'carrying the identifier of the transaction root) makes overwrite / store answer an error with the disk '
+                  'unchanged, for every template, storage content and cache (C11_defect_rejected); two different objects '
+                  'under one identifier in a template whose named nodes below the root are new likewise '
+                  '(C11_clash_rejected); a template without reachable defect, duplicate identifier and object inside '
+                  'itself is accepted (C11_clean_accepted); for templates whose named nodes below the root are new this '
+                  'is an equivalence (C11_rejected_iff).  These are statements about the MODEL of the encoder: that the '
+                  'implementation rejects the same templates, and before the first backend call, rests on the '
+                  'comparison with the model on every case (C11_error_before_write is definitional).  TESTED ONLY: '
+                  'the CachingBackend wrapper; clause '
                   '"no partial trace before the first write" on the implementation side is judged at the first mutating '
                   'primitive only (later non-publishing positions through the state-sequence comparison with the model).  '
                   'The model is tied to /repo on every run by fault injection at every mutating (on a share of the cases '
@@ -1308,7 +1313,7 @@ MANIFEST = {
                   'C11_repaired_cycle_refuted), excluded by guard2_cycle / guard2_exact; the exact guard is necessary and '
                   'sufficient for clause (a), so nothing else is excluded; `classify` attributes a rejected case to the '
                   'finding only when the implementation behaved as the model, an operation is outside guard2_exact, every '
-                  'clause but loadability holds and the unloadable state is present and closed (a cycle).  31 of the 48 '
+                  'clause but loadability holds and the unloadable state is present and closed (a cycle).  31 of the 53 '
                   'theorems are about the model of the code BEFORE the round-4 repair (kept as the record of why the '
                   'repairs were needed).  dup-id-in-transaction was REPAIRED in round 4.  The model answers EClash for an '
                   'object met inside itself (impossible for immutable template trees).  Templates in the tests: '
